@@ -4,6 +4,7 @@
 //
 //   wb_c20api <program> <kfrom> <kto>      run the program once per k in [kfrom,kto]
 //                                          (k = 0: no failure, counts allocations)
+//   wb_c20api <program> cycles <n>         n init/run/fini cycles in one process, no fault
 //   wb_c20api --list                       program names
 //
 // Per k one line:
@@ -194,6 +195,7 @@ extern void __sanitizer_set_death_callback(void (*)(void)) __attribute__((weak))
 
 // ------------------------------------------------------------------ step bookkeeping
 enum { K_API = 0, K_XCHG = 1, K_CONN = 2 };
+static int         g_debug;
 static int         v_kind;      // 0 ok, 1 badrv, 2 norecover
 static int         env_rv;      // a step failed although no fault had been injected yet (environment / race)
 static char        env_step[64];
@@ -260,6 +262,9 @@ note(int kind, const char *step, int rv)
 		bool _ok = false;                                      \
 		for (int _i = 0; _i < (tries) && !_ok; _i++) {         \
 			_rv = (expr);                                  \
+			if (g_debug) {                                 \
+				printf("  try %d of %s -> %d\n", _i, #expr, _rv); \
+			}                                              \
 			_ok = note(kind, #expr, _rv);                  \
 			if (!_ok && (kind) != K_API) {                 \
 				nng_msleep(20);                        \
@@ -486,10 +491,13 @@ static const char *trans[] = { "inproc", "tcp", "ipc", "ws", NULL };
 
 // contexts with aios: two REQ contexts against two REP contexts
 static int
-ctx_rr(nng_ctx cq, nng_ctx cp, nng_aio *aq, nng_aio *ap, const char *q)
+ctx_rr(nng_ctx cq, nng_ctx cp, nng_aio *aq, nng_aio *ap, const char *q0)
 {
-	nng_msg *m;
-	int      rv;
+	nng_msg   *m;
+	int        rv;
+	static int attempt;
+	char       q[64];
+	snprintf(q, sizeof(q), "%s#%d", q0, ++attempt);
 	if ((rv = nng_msg_alloc(&m, 0)) != 0) {
 		return rv;
 	}
@@ -501,6 +509,7 @@ ctx_rr(nng_ctx cq, nng_ctx cp, nng_aio *aq, nng_aio *ap, const char *q)
 	nng_ctx_send(cq, aq);
 	nng_aio_wait(aq);
 	if ((rv = nng_aio_result(aq)) != 0) {
+		if (g_debug) printf("    stage req-send rv=%d\n", rv);
 		nng_msg_free(nng_aio_get_msg(aq));
 		nng_aio_set_msg(aq, NULL);
 		return rv;
@@ -508,13 +517,27 @@ ctx_rr(nng_ctx cq, nng_ctx cp, nng_aio *aq, nng_aio *ap, const char *q)
 	nng_ctx_recv(cp, ap);
 	nng_aio_wait(ap);
 	if ((rv = nng_aio_result(ap)) != 0) {
+		if (g_debug) printf("    stage rep-recv rv=%d\n", rv);
 		return rv;
 	}
 	m = nng_aio_get_msg(ap); // echo it back
+	for (int stale = 0; stale < 4 && (nng_msg_len(m) != strlen(q) + 1 || strcmp(nng_msg_body(m), q) != 0); stale++) {
+		// a request of an earlier, abandoned attempt (REQ resends it when its pipe
+		// comes back): not the one we are waiting for
+		nng_msg_free(m);
+		nng_aio_set_msg(ap, NULL);
+		nng_ctx_recv(cp, ap);
+		nng_aio_wait(ap);
+		if ((rv = nng_aio_result(ap)) != 0) {
+			return rv;
+		}
+		m = nng_aio_get_msg(ap);
+	}
 	nng_aio_set_msg(ap, m);
 	nng_ctx_send(cp, ap);
 	nng_aio_wait(ap);
 	if ((rv = nng_aio_result(ap)) != 0) {
+		if (g_debug) printf("    stage rep-send rv=%d\n", rv);
 		nng_msg_free(nng_aio_get_msg(ap));
 		nng_aio_set_msg(ap, NULL);
 		return rv;
@@ -522,6 +545,7 @@ ctx_rr(nng_ctx cq, nng_ctx cp, nng_aio *aq, nng_aio *ap, const char *q)
 	nng_ctx_recv(cq, aq);
 	nng_aio_wait(aq);
 	if ((rv = nng_aio_result(aq)) != 0) {
+		if (g_debug) printf("    stage req-recv rv=%d\n", rv);
 		return rv;
 	}
 	m = nng_aio_get_msg(aq);
@@ -1212,12 +1236,20 @@ main(int argc, char **argv)
 	}
 	g_prog = pg->name;
 	setvbuf(stdout, NULL, _IOLBF, 0);
+	g_debug = getenv("C20_DEBUG") != NULL;
 	if (__sanitizer_set_death_callback) {
 		__sanitizer_set_death_callback(on_sanitizer_death);
 	}
 	signal(SIGALRM, on_signal);
 	signal(SIGABRT, on_signal);
 	signal(SIGPIPE, SIG_IGN);
+	if (strcmp(argv[2], "cycles") == 0) {
+		// several init/fini cycles in this one process, no fault
+		for (int c = 0; c < atoi(argv[3]); c++) {
+			run_one(pg, 0);
+		}
+		return 0;
+	}
 	long kfrom = atol(argv[2]), kto = atol(argv[3]);
 	int  misses = 0;
 	for (long k = kfrom; k <= kto; k++) {
